@@ -1,9 +1,15 @@
 """C53 EKOs are continuous in the target scale within a flavour-number patch (X-conf, S2 + S3).
 
 Targets exactly on each matching scale (with the lower and with the upper nf) and on the initial
-scale are compared with targets displaced by a relative eps in {1e-7, 1e-6} (on mu^2) *inside the
-same patch*, for orders 1-3, scale-variation schemes none / expanded / exponentiated with
-xi^2 in {1/4, 4}. Oracle: max|E(mu^2) - E(mu^2 (1 +- eps))| <= 50 eps (1 + max|E|).
+scale are compared with a ladder of targets displaced *inside the same patch* (relative, on mu^2):
+1e-8, 1e-7, 1e-6, a pair straddling the edge of each former `np.isclose` window (rtol 1e-5, atol 1e-8:
+`Operator.compute` skipped a final segment that short, `Couplings.a` skipped the running over a
+segment that short; the operator was frozen inside and jumped at the edge - repaired in eko
+3dd82389, the windows are now at rounding level, rtol 1e-14), and 3e-5, 1e-4,
+for orders 1-3, scale-variation schemes none / expanded / exponentiated with xi^2 in {1/4, 4}.
+Oracles: every displaced target against the boundary target, and every pair of consecutive ladder
+points: |E(t) - E(t')| <= LIP |t - t'|/b (1 + max|E(b)|); no displaced target (>= 1e-8) may return the
+bit-identical operator of the boundary (a locally constant operator is a step function).
 Continuity is a statement about kernels, couplings and the cliff logic, independent of the x
 grid: decided on exact Mellin moments through the real runner, tied to x-space by S3 cards.
 """
@@ -17,39 +23,104 @@ from vf.core.ctx import Result
 
 ID = "C53"
 LEVEL = "exploration"
-TECHNIQUE = "exhaustive enumeration of (order, sv scheme, ratio, boundary target) through the real runner; Lipschitz oracle at eps = 1e-7, 1e-6"
-LEVEL_TEXT = (
-    "every patch boundary (matching scale with lower/upper nf) and the initial scale, for every order 1-3 x scheme x ratio x "
-    "direction of the path, is solved together with its two displaced neighbours; the difference must be O(eps)"
+TECHNIQUE = (
+    "exhaustive enumeration of (order, sv scheme, ratio, boundary target) through the real runner; Lipschitz oracle on a ladder of "
+    "7-9 displaced targets (1e-8 ... 1e-4, incl. pairs straddling the former isclose-window edges), against the boundary and pairwise"
 )
-LEVEL_NOTE = "two displacements only (as in the property text); masses/scales fixed; S2 probe for the bulk, real quadrature on 3-point grids for a subset"
-FLOOR_NONTRIVIAL = 30
+LEVEL_TEXT = (
+    "every patch boundary (matching scale with lower/upper nf, reached directly, through another matching scale, or being the initial "
+    "scale) and the initial scale, for every order 1-3 x scheme x ratio x direction of the path, is solved together with its ladder of "
+    "displaced neighbours; all differences (to the boundary and between consecutive neighbours) must be O(distance), and no neighbour "
+    "may be bit-identical to the boundary operator"
+)
+LEVEL_NOTE = (
+    "displacements 1e-8..1e-4 and the two former isclose-window edges (1e-5) only, the present rounding-level windows (1e-14) are not resolved; masses/scales fixed (matching ratios 1.3/0.7 in thorough); S2 probe "
+    "for the bulk, real quadrature on 3-point grids for a subset; a jump elsewhere in the interior of a patch is not looked for"
+)
+FLOOR_NONTRIVIAL = 250
 
 M = [2.0, 4.5, 100.0]
 SV = [(None, 1.0), ("expanded", 0.5), ("expanded", 2.0), ("exponentiated", 0.5), ("exponentiated", 2.0)]
-# (init, target mu, target nf, direction of the displacement that stays inside the patch)
+# name: (init, target mu, target nf, direction of the displacement that stays inside the patch,
+#        former short-segment windows (rtol 1e-5) of the code that contained the boundary target for sv None / exponentiated
+#        (kept to attribute a re-appearing edge jump to the recorded, repaired finding):
+#        "op"  = the final evolution segment starts at the boundary (Operator.compute: isclose(q2_from, q2_to)),
+#        "cpl" = the last segment of the coupling path (from the reference (91.2, 5)) starts at the boundary
+#                (Couplings.a: isclose(seg.origin, seg.target)),
+#        extra config)
 TARGETS = {
-    "init": ([3.0, 4], 3.0, 4, +1),
-    "init-": ([3.0, 4], 3.0, 4, -1),
-    "mc-upper": ([3.0, 4], 2.0, 4, +1),
-    "mc-lower": ([3.0, 4], 2.0, 3, -1),
-    "mb-lower": ([3.0, 4], 4.5, 4, -1),
-    "mb-upper": ([3.0, 4], 4.5, 5, +1),
-    "mb-lower-from-above": ([10.0, 5], 4.5, 4, -1),
-    "mb-upper-from-above": ([10.0, 5], 4.5, 5, +1),
-    "mc-lower-from-below": ([1.5, 3], 2.0, 3, -1),
-    "mc-upper-from-below": ([1.5, 3], 2.0, 4, +1),
-    "mt-lower": ([10.0, 5], 100.0, 5, -1),
-    "mt-upper": ([10.0, 5], 100.0, 6, +1),
+    "init": ([3.0, 4], 3.0, 4, +1, ("op",), {}),
+    "init-": ([3.0, 4], 3.0, 4, -1, ("op",), {}),
+    "mc-upper": ([3.0, 4], 2.0, 4, +1, (), {}),
+    "mc-lower": ([3.0, 4], 2.0, 3, -1, ("op", "cpl"), {}),
+    "mb-lower": ([3.0, 4], 4.5, 4, -1, ("cpl",), {}),
+    "mb-upper": ([3.0, 4], 4.5, 5, +1, ("op",), {}),
+    "mb-lower-from-above": ([10.0, 5], 4.5, 4, -1, ("op", "cpl"), {}),
+    "mb-upper-from-above": ([10.0, 5], 4.5, 5, +1, (), {}),
+    "mc-lower-from-below": ([1.5, 3], 2.0, 3, -1, ("cpl",), {}),
+    "mc-upper-from-below": ([1.5, 3], 2.0, 4, +1, ("op",), {}),
+    "mt-lower": ([10.0, 5], 100.0, 5, -1, (), {}),
+    "mt-upper": ([10.0, 5], 100.0, 6, +1, ("op", "cpl"), {}),
+    # final segment from a matching scale to a matching scale (the path crosses another matching scale first)
+    "mb-lower-via-mc": ([1.5, 3], 4.5, 4, -1, ("cpl",), {}),
+    "mb-upper-via-mc": ([1.5, 3], 4.5, 5, +1, ("op",), {}),
+    "mc-upper-via-mb": ([10.0, 5], 2.0, 4, +1, (), {}),
+    "mc-lower-via-mb": ([10.0, 5], 2.0, 3, -1, ("op", "cpl"), {}),
+    # the initial scale sits on a matching scale
+    "init-on-mc-lower": ([2.0, 3], 2.0, 3, -1, ("op", "cpl"), {}),
+    "init-on-mc-upper": ([2.0, 3], 2.0, 4, +1, ("op",), {}),
+    "init-on-mb-lower": ([4.5, 5], 4.5, 4, -1, ("op", "cpl"), {}),
+    "init-on-mb-upper": ([4.5, 5], 4.5, 5, +1, ("op",), {}),
+    # matching scale k*m_b with k != 1: (k m)^2 of the atlas and mu^2 of the target need not be the same float
+    "mb-lower-k1.3": ([3.0, 4], 1.3 * 4.5, 4, -1, ("cpl",), dict(ratios=[1.0, 1.3, 1.0])),
+    "mb-upper-k1.3": ([3.0, 4], 1.3 * 4.5, 5, +1, ("op",), dict(ratios=[1.0, 1.3, 1.0])),
+    "mb-lower-k0.7": ([3.0, 4], 0.7 * 4.5, 4, -1, ("cpl",), dict(ratios=[1.0, 0.7, 1.0])),
+    "mb-upper-k0.7": ([3.0, 4], 0.7 * 4.5, 5, +1, ("op",), dict(ratios=[1.0, 0.7, 1.0])),
 }
-EPS = [1e-7, 1e-6]
+QUICK_OLD = [t for t in list(TARGETS)[:12] if not t.startswith("mt")]
+VIA = [t for t in TARGETS if "-via-" in t or t.startswith("init-on-")]
+RATIO = [t for t in TARGETS if "-k" in t]
+EPS = [1e-7, 1e-6]  # the displacements of the property text
+EPS_IN = [1e-8]  # further displacement inside the former windows
+EPS_OUT = [3e-5, 1e-4]  # outside the former windows
+W = 1e-10  # half width of the pair straddling a window edge
+RTOL, ATOL = 1e-5, 1e-8  # numpy.isclose defaults, used at both call sites before eko 3dd82389 (now rtol=1e-14, atol=0)
 MOMENTS = [2.0, 3.3, 5.0]
+LIP = 10.0  # Lipschitz constant (times 1 + max|E0|); measured maximum 0.62 (quick) / 0.68 (thorough)
+WINDOW_NAME = {("op",): "Operator.compute-skip", ("cpl",): "Couplings.a-skip", ("cpl", "op"): "Operator.compute-skip+Couplings.a-skip"}
+
+
+def _edge(b, sgn):
+    """Relative displacement d where isclose(b, b (1 + sgn d)) flips: b d = ATOL + RTOL b (1 + sgn d)."""
+    return (RTOL + ATOL / b) / (1.0 - sgn * RTOL)
+
+
+def ladder(case):
+    """[(label, relative displacement)] sorted by displacement, and {edge displacement: windows expected there}."""
+    init, mu, nf, sgn, windows, extra = TARGETS[case["target"]]
+    sv, xif = case["sv"], case["xif"]
+    b = mu**2
+    pts = [("b", 0.0)] + [(f"{e:g}", e) for e in EPS_IN + EPS + EPS_OUT]
+    # edges: Operator.compute compares the factorization scales; Couplings.a compares the (for the exponentiated
+    # scheme: xi^2-rescaled) renormalization scales, which moves the atol term
+    edges = {}
+    d_op = _edge(b, sgn)
+    d_cpl = _edge(b * (xif**2 if sv == "exponentiated" else 1.0), sgn)
+    edges[d_op] = ["op"]
+    edges.setdefault(d_cpl, []).append("cpl")
+    expected = {}
+    for k, (d, who) in enumerate(sorted(edges.items())):
+        pts += [(f"edge{k}-in", d - W), (f"edge{k}-out", d + W)]
+        expected[f"edge{k}"] = tuple(sorted(w for w in who if w in windows and sv != "expanded"))
+    pts.sort(key=lambda p: p[1])
+    return pts, expected
 
 
 def evaluate(case):
-    init, mu, nf, sgn = TARGETS[case["target"]]
+    init, mu, nf, sgn, windows, extra = TARGETS[case["target"]]
     sv, xif = case["sv"], case["xif"]
-    mus = [mu] + [mu * math.sqrt(1.0 + sgn * e) for e in EPS]
+    pts, expected = ladder(case)
+    mus = [mu * math.sqrt(1.0 + sgn * d) if d else mu for _, d in pts]
     co = case.get("co")  # a further target far beyond, computed in the same EKO (first or last in the list)
     cfg = dict(
         order=[case["qcd"], 0],
@@ -62,6 +133,7 @@ def evaluate(case):
         iterations=4,
         inversion="expanded",
     )
+    cfg.update(extra)
     cfg.update(case.get("extra", {}))
     res = Result()
     where = f"qcd={case['qcd']} sv={sv} xif={xif} target={case['target']} init={init} mu={mu} nf={nf} seam={case['seam']}"
@@ -80,38 +152,100 @@ def evaluate(case):
         return res
     if co:
         out = {k: v for k, v in out.items() if not (abs(k[0] - 3600.0) < 1e-6 and k[1] == 5)}
-    byscale = sorted(out.items(), key=lambda kv: abs(kv[0][0] - mu**2))
-    if len(byscale) != 3:
-        res.fail("solve/points", f"{where}: expected 3 evolution points, got {sorted(out)}")
+    # one evolution point per requested target
+    keys = sorted(out)
+    Es = []
+    used = set()
+    for m_ in mus:
+        k = min(keys, key=lambda kk: abs(kk[0] - m_ * m_)) if keys else None
+        if k is None or k[1] != nf or abs(k[0] - m_ * m_) > 1e-13 * m_ * m_ or k in used:
+            k = None
+            break
+        used.add(k)
+        Es.append(out[k])
+    if k is None or len(keys) != len(mus):
+        res.fail("solve/points", f"{where}: expected {len(mus)} evolution points {[m_ * m_ for m_ in mus]}, got {keys}")
         return res
-    E0 = byscale[0][1]
-    kind = "init" if case["target"].startswith("init") else "wall"
-    ratios = []
-    for (ep, E), eps in zip(byscale[1:], EPS):
-        d = float(np.abs(E - E0).max())
-        bound = 50.0 * eps * (1.0 + float(np.abs(E0).max()))
-        ratios.append(d / eps)
-        if not np.isfinite(d) or d > bound:
+    E0 = Es[0]
+    norm = 1.0 + float(np.abs(E0).max())
+    if case["target"].startswith("init-on"):
+        kind = "init+wall"
+    else:
+        kind = "init" if case["target"].startswith("init") else "wall"
+    ratios, lips, jumps, moved = [], [], {}, False
+    # (1) every displaced target against the boundary target
+    for (lab, d), E in zip(pts[1:], Es[1:]):
+        diff = float(np.abs(E - E0).max())
+        moved = moved or diff > 0
+        ratios.append(diff / d)
+        lips.append(diff / d / norm)
+        if not np.isfinite(diff) or diff > LIP * d * norm:
             res.fail(
                 f"solve/{kind}/sv={sv}/discontinuous",
-                f"{where}: |E(mu2) - E(mu2(1{'+' if sgn > 0 else '-'}{eps}))| = {d:.3e} > 50 eps (1+|E|) = {bound:.3e}",
+                f"{where}: |E(mu2) - E(mu2(1{'+' if sgn > 0 else '-'}{d:.10e}))| = {diff:.3e} > {LIP:g} eps (1+|E|) = {LIP * d * norm:.3e}",
             )
-    res.info = {"max_d_over_eps": max(ratios)}
-    res.outcome = f"{kind}:{sv}:{'zero' if max(ratios) == 0 else 'smooth'}"
+        # (3) a displaced target with the bit-identical operator: locally constant, i.e. a step somewhere (the short-segment
+        # windows of the code are at rtol 1e-14, six orders below the smallest displacement)
+        if diff == 0.0:
+            res.fail(
+                f"solve/{kind}/sv={sv}/frozen",
+                f"{where}: the target displaced by {d:.10e} has the bit-identical operator of the boundary target",
+            )
+    # (2) consecutive ladder points against each other
+    for ((la, da), Ea), ((lb, db), Eb) in zip(zip(pts, Es), zip(pts[1:], Es[1:])):
+        diff = float(np.abs(Eb - Ea).max())
+        step = db - da
+        if diff <= LIP * step * norm and np.isfinite(diff):
+            lips.append(diff / step / norm)
+            continue
+        if la.endswith("-in") and lb.endswith("-out"):
+            exp = expected[la[:-3]]
+            jumps[la[:-3]] = diff
+            # the recorded defect, pinned: inside the window the operator is the one of the boundary target (bitwise), the
+            # window is one the path analysis predicts, and the jump is the first-order change over the skipped distance
+            # (bit-identical at the moment seam; in x-space a segment with a_s(to) == a_s(from) is the identity up to the quadrature: 1e-13)
+            frozen = Ea.tobytes() == E0.tobytes() or float(np.abs(Ea - E0).max()) <= 1e-9 * norm
+            pinned = bool(exp) and frozen and diff <= LIP * db * norm
+            if pinned:
+                res.fail(
+                    f"solve/edge-jump/{WINDOW_NAME[exp]}",
+                    f"{where}: targets mu2(1{'+' if sgn > 0 else '-'}{da:.10e}) (np.isclose to the boundary: operator identical to the boundary one) and "
+                    f"mu2(1{'+' if sgn > 0 else '-'}{db:.10e}) (not close), relative distance {step:.1e}, differ by {diff:.3e} > {LIP:g} eps (1+|E|) = {LIP * step * norm:.3e}",
+                )
+                continue
+            res.fail(
+                f"solve/{kind}/sv={sv}/edge-discontinuous",
+                f"{where}: pair straddling the isclose edge at {da:.10e}/{db:.10e} (windows expected there: {list(exp)}; inner operator "
+                f"{'==' if Ea.tobytes() == E0.tobytes() else '!='} boundary operator) differs by {diff:.3e} > {LIP * step * norm:.3e}",
+            )
+            continue
+        res.fail(
+            f"solve/{kind}/sv={sv}/discontinuous",
+            f"{where}: consecutive targets displaced by {da:.10e} and {db:.10e} differ by {diff:.3e} > {LIP:g} eps (1+|E|) = {LIP * step * norm:.3e}",
+        )
+    res.info = {"max_d_over_eps": max(ratios), "max_lipschitz_over_norm": max(lips), "edge_jumps": jumps}
+    if jumps:
+        res.info["max_known_edge_jump_abs"] = max(jumps.values())
+    res.nontrivial = moved
+    res.outcome = f"{kind}:{sv}:{'zero' if not moved else ('edge-jump' if jumps else 'smooth')}"
     return res
 
 
 def run(ctx):
     cases = []
-    tnames = list(TARGETS) if ctx.thorough() else [t for t in TARGETS if not t.startswith("mt")]
+    tnames = (list(TARGETS)[:12] if ctx.thorough() else QUICK_OLD) + VIA + (RATIO if ctx.thorough() else [])
     for qcd in (1, 2, 3):
         for sv, xif in SV:
             for t in tnames:
                 cases.append(dict(seam="s2", qcd=qcd, sv=sv, xif=xif, target=t))
+    cases.append(dict(seam="s2", qcd=2, sv="expanded", xif=2.0, target="mb-upper", method="iterate-exact"))
+    cases.append(dict(seam="s2", qcd=2, sv=None, xif=1.0, target="mb-lower", method="iterate-exact"))
     if ctx.thorough():
         for qcd in (2, 3):
             for sv, xif in SV:
                 for t in tnames:
+                    if t in RATIO:
+                        continue
                     cases.append(dict(seam="s2", qcd=qcd, sv=sv, xif=xif, target=t, method="iterate-exact"))
                     cases.append(dict(seam="s2", qcd=qcd, sv=sv, xif=xif, target=t, extra=dict(polarized=True)))
     # the boundary targets computed together with a target beyond the matching scales (shared segments)
@@ -138,7 +272,15 @@ def run(ctx):
     ctx.rule = (
         "QCD order 1-3 x 5 (scheme, xi) settings x boundary targets (initial scale both directions; charm/bottom"
         + ("/top" if ctx.thorough() else "")
-        + " matching scale with the lower and the upper nf, reached from below, from inside and from above) at the moment seam, "
-        "plus un-stubbed 3-point-grid cards; each case solves the boundary target with its 1e-7 and 1e-6 neighbours; non-trivial = solved"
+        + " matching scale with the lower and the upper nf, reached from below, from inside, from above, through the other matching scale, "
+        "and as initial scale" + ("; bottom matching at 1.3 m_b and 0.7 m_b" if ctx.thorough() else "") + ") at the moment seam, "
+        "plus un-stubbed 3-point-grid cards; each case solves, in one EKO, the boundary target and its neighbours displaced by 1e-8, 1e-7, 1e-6, "
+        "edge -+ 1e-10 of each former isclose window (Operator.compute / Couplings.a: 1e-5 + 1e-8/mu2), 3e-5, 1e-4; "
+        "non-trivial = solved and at least one neighbour differs from the boundary operator"
     )
-    ctx.assumptions += ["Lipschitz constant 50 (1 + max|E|): smooth cases measure d/eps of order 0.1-1, a jump is >= 1e-3 absolute"]
+    ctx.assumptions += [
+        "Lipschitz constant 10 (1 + max|E|) against the boundary target and between consecutive neighbours: smooth cases measure "
+        "at most 0.68 (1 + max|E|); a jump between consecutive neighbours is seen if it is >= 20 x their relative distance (>= 4e-9 absolute at a window edge)",
+        "which former short-segment windows contained a boundary target (table TARGETS) is derived by hand from the evolution path and the coupling path "
+        "from the reference (91.2, 5); a window-edge jump is attributed to the recorded (repaired) finding only where that table predicts the window",
+    ]
